@@ -905,18 +905,13 @@ impl DhtCoreEngine {
             "Selected storage targets"
         );
 
-        // Store locally if we're one of the selected nodes or if no nodes are available (test/single-node mode)
-        if selected_nodes.contains(&self.node_id) || selected_nodes.is_empty() {
+        // This node was asked to hold the value: keep it. (The routing table never
+        // lists the local node, so making the local copy conditional on the local node
+        // being among the selected targets meant that a node with any peer in its
+        // table acknowledged stores without keeping anything.)
+        {
             let mut store = self.data_store.write().await;
-            // Avoid unnecessary clone of value: key is cloned for ownership, value is consumed by this branch
             store.put(key.clone(), value);
-            // Return early since we've consumed value
-            return Ok(StoreReceipt {
-                key: key.clone(),
-                stored_at: selected_nodes,
-                timestamp: SystemTime::now(),
-                success: true,
-            });
         }
 
         Ok(StoreReceipt {
